@@ -20,7 +20,11 @@ EXPLANATION = (
     "(RESCALE) gather_slices rescales tuple chunks to a common exponent before "
     "stacking and returns that exponent iff it rescaled; (OPTION) strip_exponent "
     "given to _build_expression reaches every terminal constructor. Floating-point "
-    "range claims are not decided."
+    "range claims are not decided. "
+    "Later rounds added: "
+    "(SCALE zero-test) the zero early-out is taken only on request and only for a scale "
+    "equal to zero; (FRESH) no in-place write reaches a value that may share storage with "
+    "the caller's arrays. "
 )
 ASSUMPTIONS = (
     "contract_mpi is out of scope: it documents a plain sum of raw buffers reduced by "
